@@ -301,7 +301,18 @@ fn c_write(lib: &Lib, p: &Program, level: u32, sched: &Sched) -> WriteResult {
     let mut cfg: *mut c_void = std::ptr::null_mut();
     st.push((lib.config_default_new)(&mut cfg));
     let pk = pem_of_key(0, false);
-    st.push((lib.config_add_public_keys)(cfg, pk.as_ptr()));
+    match p.ops.len() % 3 {
+        // one recipient; two recipients in one PEM text; two recipients in two calls
+        0 => st.push((lib.config_add_public_keys)(cfg, pk.as_ptr())),
+        1 => {
+            let both = CString::new(format!("{}{}", pk.to_str().unwrap_or(""), pem_of_key(1, false).to_str().unwrap_or(""))).unwrap();
+            st.push((lib.config_add_public_keys)(cfg, both.as_ptr()));
+        }
+        _ => {
+            st.push((lib.config_add_public_keys)(cfg, pk.as_ptr()));
+            st.push((lib.config_add_public_keys)(cfg, pem_of_key(1, false).as_ptr()));
+        }
+    }
     st.push((lib.config_set_compression_level)(cfg, level));
     let mut ar: *mut c_void = std::ptr::null_mut();
     st.push((lib.archive_new)(&mut cfg, Some(write_cb), Some(flush_cb), ctx, &mut ar));
@@ -674,7 +685,9 @@ fn run_case(lib: &Lib, c: &Case, rep: &mut Report) {
                     if !all_ok {
                         rep.violate(Violation { sig: json!({"kind": "c_write_fails", "side": "write"}), detail: format!("{} with schedule {}: statuses {:x?}", p.short(), s.json(), r.statuses), replay: rp, weight: s.at.len() as u64 });
                     } else {
-                        match guard(|| prog::read_all(&r.out, &[0])) {
+                        // read with the key of the last recipient registered through C
+                        let reader_key = if p.ops.len() % 3 == 0 { 0 } else { 1 };
+                        match guard(|| prog::read_all(&r.out, &[reader_key])) {
                             Ok(Ok(got)) => {
                                 if let Some(d) = prog::diff_model(&model, &got) {
                                     rep.violate(Violation { sig: json!({"kind": "c_written_archive_differs", "side": "write"}), detail: format!("{} with schedule {}: {d}", p.short(), s.json()), replay: rp.clone(), weight: s.at.len() as u64 });
@@ -682,7 +695,7 @@ fn run_case(lib: &Lib, c: &Case, rep: &mut Report) {
                                 // what mla_archive_flush promises: the destination cut where it stood when the flush
                                 // returned is repairable up to what had been appended (same oracle as C14)
                                 let at_flush = p.model_at_flushes();
-                                let c14case = super::c14::Case { p: p.clone(), cfg: Cfg::lvl(L4::Both, *level) };
+                                let c14case = super::c14::Case { p: p.clone(), cfg: Cfg { layers: L4::Both, level: *level, recipients: if p.ops.len() % 3 == 0 { 1 } else { 2 } } };
                                 for (k, fl) in r.flush_lens.iter().enumerate() {
                                     if k >= at_flush.len() || *fl > r.out.len() {
                                         continue;
@@ -812,7 +825,8 @@ pub fn cases(thorough: bool) -> Vec<Case> {
     for (k, p) in progs.iter().enumerate() {
         for (si, s) in [Sched::default(), Sched { uniform: Some(1), at: BTreeMap::new() }, Sched { uniform: Some(7), at: BTreeMap::new() }].into_iter().enumerate() {
             // faults / single deviations at every callback index: on a subset (every 6th program), default schedule
-            let explore = si == 0 && k % (if thorough { 3 } else { 15 }) == 0;
+            // programs that call mla_archive_flush are always explored (the flush callback is only reached through them)
+            let explore = si == 0 && (k % (if thorough { 3 } else { 15 }) == 0 || (p.ops.contains(&Op::Flush) && (thorough || p.ops.len() <= 8)));
             v.push(Case::Write { p: p.clone(), level: [0u32, 5, 11][k % 3], sched: s, explore_faults: explore });
         }
     }
@@ -903,7 +917,7 @@ pub fn run(started: Instant) -> i32 {
         rep,
         Meta {
             level: "model_checking",
-            rule: "libmla.so built from the working tree is loaded with dlopen and driven through its C entry points in worker processes. (1) every program of a bounded tree (and rich bases, flush placements) expressed as mla_archive_file_new/append/flush/close + mla_archive_close, with write callbacks that accept everything / 1 byte / 7 bytes per call; the collected bytes are read by the Rust ArchiveReader and compared with the reference model; where the program calls mla_archive_flush, the bytes the callback had received when it returned are repaired and must hold what had been appended (C14's oracle). (2) archives written by the Rust writer (4 layer combos) extracted with mla_roarchive_extract through read callbacks returning everything / 1 / 5 bytes and per-file write callbacks accepting partial buffers: exact bytes per file; also with a file callback that declines every other file (subset extraction: nothing for the declined ones); base programs also with non-ASCII, nested and spaced names in both directions; on fault-free schedules the context has been used before, by mla_roarchive_info (version and layer bits checked against the header) or by a complete earlier extraction, and is not rewound by the caller. (3) for a subset of (1)/(2), at EVERY callback invocation index: accept 1 byte, accept half, or report failure - a reported failure must surface as a non-success status no later than the close; 37 NULL-pointer / cleared-handle / double-close / handle-after-failed-call placements and 7 calls refused for other reasons (duplicate name - the archive must then be the archive of the accepted calls -, close with a file open, level 12, malformed or wrong-kind key, extraction without / with a foreign key) must return a non-success status. No crash, signal or panic across the FFI in any case. states = distinct (case, schedule)".to_string(),
+            rule: "libmla.so built from the working tree is loaded with dlopen and driven through its C entry points in worker processes. (1) every program of a bounded tree (and rich bases, flush placements) expressed as mla_archive_file_new/append/flush/close + mla_archive_close, with one recipient, two recipients in one PEM text or two in two calls (the archive is read back with the key of the last one), and write callbacks that accept everything / 1 byte / 7 bytes per call; the collected bytes are read by the Rust ArchiveReader and compared with the reference model; where the program calls mla_archive_flush, the bytes the callback had received when it returned are repaired and must hold what had been appended (C14's oracle). (2) archives written by the Rust writer (4 layer combos) extracted with mla_roarchive_extract through read callbacks returning everything / 1 / 5 bytes and per-file write callbacks accepting partial buffers: exact bytes per file; also with a file callback that declines every other file (subset extraction: nothing for the declined ones); base programs also with non-ASCII, nested and spaced names in both directions; on fault-free schedules the context has been used before, by mla_roarchive_info (version and layer bits checked against the header) or by a complete earlier extraction, and is not rewound by the caller. (3) for a subset of (1)/(2), at EVERY callback invocation index: accept 1 byte, accept half, or report failure - a reported failure must surface as a non-success status no later than the close; 37 NULL-pointer / cleared-handle / double-close / handle-after-failed-call placements and 7 calls refused for other reasons (duplicate name - the archive must then be the archive of the accepted calls -, close with a file open, level 12, malformed or wrong-kind key, extraction without / with a foreign key) must return a non-success status. No crash, signal or panic across the FFI in any case. states = distinct (case, schedule)".to_string(),
             exhaustive: true,
             bounds: json!({"cases": cs.len(), "null_placements": N_NULL}),
             assumptions: vec!["the C API only offers the default layers (compress+encrypt) for writing".to_string(), "scaled constants".to_string()],
